@@ -28,6 +28,8 @@ class Ty:
             return ('i' if self.signed else 'u') + str(self.w)
         if self.kind == 'rec':
             return re.sub(r'[^A-Za-z0-9]+', '_', self.rec['_q'].split('::')[-1]).strip('_')
+        if self.kind in ('ptr', 'pptr'):
+            return ('pp' if self.kind == 'pptr' else 'p') + ('c' if self.signed else 'u')
         return {'bool': 'b', 'dbl': 'f64', 'pair': 'pair', 'vec': 'vec'}.get(self.kind, 'x')
 
     def __repr__(self):
@@ -71,6 +73,7 @@ class Item:
         self.full = 'Src.%s.%s' % (area, local)
         self.params, self.ret, self.defd_trivial, self.uses_self = [], None, True, False
         self.effectful, self.fuel, self.state_ty, self.cparams = False, False, None, []
+        self.buf = False          # takes the byte array `buf` as its first explicit parameter (after fuel)
 
 
 class Fx:
@@ -85,10 +88,13 @@ class Fx:
         self.fuel = False            # contains a loop (or calls a function with one)
         self.calls_fx = False        # calls a function with effects
         self.ref_locals = []         # reference-typed locals bound to an lvalue (aliases)
+        self.cell = None             # decl id of the `const char**` in/out parameter (its cell is the state σ)
+        self.buf = False             # the function has character cursors: every definition takes `buf`
+        self.flow = False            # a Flow merge was emitted (join style)
 
     @property
     def effectful(self):
-        return self.writes_self or self.throws or self.fuel or self.calls_fx
+        return self.writes_self or self.throws or self.fuel or self.calls_fx or self.cell is not None or self.flow
 
 
 class Env:
@@ -103,9 +109,12 @@ class Env:
         self.in_loop = None   # loop context (x2l_st.py)
         self.opaque = ()      # qualified names of the calls this target treats as opaque values
         self.opaque_vals = {} # decl id -> (lean name, Ty, qualified name): the extra parameters
+        self.join = False     # JOIN style (x2l_st.py jblock): `if` / loops deliver the variables they assign
+        self.hoisted = {}     # node id of a postfix ++/-- evaluated as the old value (the increment follows the statement)
 
     uses_self = property(lambda s: s.fx.uses_self, lambda s, v: setattr(s.fx, 'uses_self', v))
     ret_ty = property(lambda s: s.fx.ret_ty, lambda s, v: setattr(s.fx, 'ret_ty', v))
+    buf = property(lambda s: s.fx.buf, lambda s, v: setattr(s.fx, 'buf', v))
 
     def copy(self):
         """a branch: own variable versions, everything else shared"""
@@ -213,6 +222,24 @@ class Translator:
             if k == 'CXXMethodDecl' and name.startswith('operator') and f.get('_parent') is not None:
                 pass
             base += ''.join('_' + s for s in sh)
+            if k == 'FunctionDecl' and not name.startswith('operator'):
+                # instantiations of one function template that differ only in the return type (`opl_parse_int<T>`)
+                def pshort(g):
+                    out = []
+                    for c in g.get('inner', []):
+                        if c.get('kind') == 'ParmVarDecl':
+                            try:
+                                out.append(self.resolve(c['type'], c).short())
+                            except Unsupported:
+                                out.append('x')
+                    return out
+                same = [g for g in self.ix.funcs.get(f.get('_q'), []) if g is not f and pshort(g) == sh]
+                if same:
+                    rt = f['type'].get('desugaredQualType') or f['type'].get('qualType', '')
+                    try:
+                        base += '_r' + self.resolve_str(rt[:rt.index('(')].strip(), f).short()
+                    except (Unsupported, ValueError):
+                        base += '_rx'
         return base
 
     # ---- types ---------------------------------------------------------------------------------
@@ -224,6 +251,12 @@ class Translator:
         m = re.search(r'\(unnamed enum at (.*):(\d+):(\d+)\)\s*&?$', s)
         if m:
             return self.enum_ty(self.ix.enums.get('@%s:%s' % (m.group(1), m.group(2))), n, s0)
+        if '*' in s:
+            m = re.fullmatch(r'\s*(?:const (unsigned |signed )?char|(unsigned |signed )?char const)\s*\*\s*(const)?\s*(\*)?\s*(const)?\s*&?\s*', s)
+            if m and not (m.group(4) and m.group(3)):
+                sg = (m.group(1) or m.group(2) or '').strip()
+                return Ty('pptr' if m.group(4) else 'ptr', 8, sg != 'unsigned')
+            self.bad(n, 'pointer type outside the character-cursor subset (only `const char*`, `const unsigned char*`, `const char**`): ' + s0)
         s = re.sub(r'\b(const|volatile|struct|class|enum)\b', ' ', s)
         s = re.sub(r'\s+', ' ', s).strip()
         while s.endswith('&'):
@@ -265,7 +298,7 @@ class Translator:
         return Ty('int', None, None)              # range unknown: conversions from it always wrap
 
     def lean_ty(self, ty, n):
-        if ty.kind in ('int', 'dbl'):
+        if ty.kind in ('int', 'dbl', 'ptr', 'pptr'):
             return 'Int'
         if ty.kind == 'bool':
             return 'Bool'
@@ -290,6 +323,8 @@ class Translator:
             return '%sinU 64 %s.size' % (SEM, term)
         if ty.kind == 'rec':
             return '%s.typed %s' % (self.record_item(ty.rec).full, term)
+        if ty.kind in ('ptr', 'pptr'):
+            return '%sptrOk buf %s' % (SEM, term)
         return None
 
     # ---- emission ------------------------------------------------------------------------------
@@ -408,6 +443,8 @@ class Translator:
     def check_param(self, p):
         q = p['type'].get('qualType', '')
         dq = p['type'].get('desugaredQualType', q)
+        if '*' in dq and '&' not in dq:
+            return self.resolve(p['type'], p)          # a character cursor (or refused there)
         if '*' in dq or ('&' in dq and not dq.lstrip().startswith('const')):
             self.bad(p, 'parameter %s of pointer / non-const reference type %s' % (p.get('name'), q))
         ty = self.resolve(p['type'], p)
